@@ -206,15 +206,21 @@ theorem coreT (s : TcpSt) (l3 : L3) (t : TCP) :
       simp only [hf']
       cases pairOK
       · simp [interp_err, kind_nomatch]
-      · by_cases h1 : s.cfg.tport = t.sport
-        · by_cases h2 : s.cfg.lport = t.dport
-          · simp [h1, h2, hl, interp_fatal, kind_wrap, dSent]
+      · generalize s.cfg.tport = tp
+        generalize t.sport = sp
+        generalize s.cfg.lport = lp
+        generalize t.dport = dq
+        by_cases h1 : tp = sp
+        · subst h1
+          by_cases h2 : lp = dq
+          · subst h2
+            simp [hl, interp_fatal, kind_wrap, dSent]
             try (
               by_cases hq : (syn = true ∧ ackf = true ∨ rst = true ∧ ackf = true) ∧ ¬last.seq = (t.ack + 4294967295) % 4294967296
               · cases s.cfg.paris <;> simp [hq, interp_err, kind_nomatch]
               · simp [hq, interp_ok])
-          · simp [h1, h2, interp_err, kind_nomatch]
-        · simp [h1, interp_err, kind_nomatch]
+          · simp [h2, Ne.symm h2, interp_err, kind_nomatch]
+        · simp [h1, Ne.symm h1, interp_err, kind_nomatch]
 
 /-- the time-exceeded arm of the model once the quoted information is known -/
 def restI (s : TcpSt) (src : Bytes) (info : ICMPInfo) : Out :=
